@@ -168,14 +168,14 @@ theorem call_bv_sub_add (x : BitVec 64) : x - 8 + 8 = x := BitVec.sub_add_cancel
 /-- `call rax` where rax holds the address of a registered function: the return address goes into the next slot of the
     native stack (and is popped again by the callee's `ret`), the call is logged, the caller-saved registers come back
     clobbered -/
-theorem call_exec_callReg (c : Cfg) {pre : List Region} {base size : Nat} {σ : St} {slots : List Nat} (tag : Nat) (f : HelperFn)
-    (hns : md_NS pre base size σ slots) (hroom : 8 * (slots.length + 1) ≤ size)
+theorem call_exec_callReg (c : Cfg) {pre : List Region} {base size top : Nat} {hi : Nat → BitVec 8} {σ : St} {slots : List Nat} (tag : Nat)
+    (f : HelperFn) (hns : md_NS pre base size top hi σ slots) (hroom : base + 8 * (slots.length + 1) ≤ top)
     (hext : c.ext (σ.get 0).toNat = some (tag, f)) (next : Nat) :
     ∃ σ1 : St,
       exec c σ (.callReg 0) next = .next (call_after c σ σ1 tag (f (σ.get 7) (σ.get 6) (σ.get 2) (σ.get 1) (σ.get 8))) ∧
       σ1.rip = next ∧
-      md_NS pre base size (call_after c σ σ1 tag (f (σ.get 7) (σ.get 6) (σ.get 2) (σ.get 1) (σ.get 8))) slots := by
-  have hns' : md_NS pre base size { σ with rip := next } slots := md_ns_congr hns rfl rfl
+      md_NS pre base size top hi (call_after c σ σ1 tag (f (σ.get 7) (σ.get 6) (σ.get 2) (σ.get 1) (σ.get 8))) slots := by
+  have hns' : md_NS pre base size top hi { σ with rip := next } slots := md_ns_congr hns rfl rfl
   obtain ⟨σ1, hp, hreg, hrip1, _, _, _, hns1⟩ := md_ns_push hns' hroom (BitVec.ofNat 64 next)
   refine ⟨σ1, ?_, hrip1, ?_⟩
   · unfold exec
@@ -213,13 +213,13 @@ theorem armSimC_call (clob : Nat → Nat → BitVec 64) (i : Insn) (h : i.opc = 
   have hlen := call_logRel_length σ s hlog
   obtain ⟨e0, e1, e2, e3, e4, e5, e6, e7, e8, e9, e10⟩ := regOf_vals
   -- the native stack
-  obtain ⟨pre, base, size, hns0, hsize, hexit⟩ := md_ns_of_rel0 retAddr σ s hrel
-  have hsp0 : (σ.get 4).toNat + 8 = base + size := by simpa using hns0.sp
+  obtain ⟨pre, base, size, top, hi, hns0, hsize, hexit⟩ := md_ns_of_rel0 retAddr σ s hrel
+  have hsp0 : (σ.get 4).toNat + 8 = top := by simpa using hns0.sp
   -- push r10 ; mov rcx, r9 ; mov rax, addr
   obtain ⟨σ1, hst1, hget1, hns1⟩ := md_step_push c 10 hns0 (by simp; omega)
   have hst2 := md_step_movRR c σ1 9 1
   have hst3 := call_step_loadImm64 c (σ1.set 1 (σ1.get 9)) 0 (BitVec.ofNat 64 addr)
-  have hns3 : md_NS pre base size ((σ1.set 1 (σ1.get 9)).set 0 (BitVec.ofNat 64 addr)) ([retAddr] ++ [(σ.get 10).toNat]) :=
+  have hns3 : md_NS pre base size top hi ((σ1.set 1 (σ1.get 9)).set 0 (BitVec.ofNat 64 addr)) ([retAddr] ++ [(σ.get 10).toNat]) :=
     md_ns_congr hns1 rfl (by rw [get_set_ne _ 0 4 _ (by omega), get_set_ne _ 1 4 _ (by omega)])
   have hg1 : ∀ k, k ≠ 4 → σ1.get k = σ.get k := fun k hk => by rw [hget1, get_set_ne _ 4 k _ (Ne.symm hk)]
   have hg3 : ∀ k, k ≠ 0 → k ≠ 1 → k ≠ 4 →
@@ -228,7 +228,7 @@ theorem armSimC_call (clob : Nat → Nat → BitVec 64) (i : Insn) (h : i.opc = 
   have hg3_0 : ((σ1.set 1 (σ1.get 9)).set 0 (BitVec.ofNat 64 addr)).get 0 = BitVec.ofNat 64 addr := get_set_eq _ 0 _ (by omega)
   have hg3_1 : ((σ1.set 1 (σ1.get 9)).set 0 (BitVec.ofNat 64 addr)).get 1 = σ.get 9 := by
     rw [get_set_ne _ 0 1 _ (by omega), get_set_eq _ 1 _ (by omega), hg1 9 (by omega)]
-  have hsp3 : (((σ1.set 1 (σ1.get 9)).set 0 (BitVec.ofNat 64 addr)).get 4).toNat + 16 = base + size := by
+  have hsp3 : (((σ1.set 1 (σ1.get 9)).set 0 (BitVec.ofNat 64 addr)).get 4).toNat + 16 = top := by
     simpa using hns3.sp
   obtain ⟨m, hchk', hrun3⟩ := md_run c tgt [.push 10, JitAst.movRR 9 1, JitAst.loadImm 0 (BitVec.ofNat 64 addr).toInt]
     [.i (.callReg 0), .i (.pop 10)] a b σ _ hchk hrip (.cons hst1 (.cons hst2 (.cons hst3 (.nil _))))
@@ -236,7 +236,7 @@ theorem armSimC_call (clob : Nat → Nat → BitVec 64) (i : Insn) (h : i.opc = 
   -- call rax
   obtain ⟨n4, hd4, hchk4⟩ := checkSeq_i _ _ _ _ _ _ hchk'
   generalize hσ3 : ((σ1.set 1 (σ1.get 9)).set 0 (BitVec.ofNat 64 addr)) = σ3 at *
-  have hns3' : md_NS pre base size { σ3 with rip := c.codeBase + m } ([retAddr] ++ [(σ.get 10).toNat]) := md_ns_congr hns3 rfl rfl
+  have hns3' : md_NS pre base size top hi { σ3 with rip := c.codeBase + m } ([retAddr] ++ [(σ.get 10).toNat]) := md_ns_congr hns3 rfl rfl
   have hext3 : c.ext (St.get { σ3 with rip := c.codeBase + m } 0).toNat = some (tag, f) := by
     rw [md_get_rip, hg3_0, BitVec.toNat_ofNat, Nat.mod_eq_of_lt haddrlt]
     exact htag
@@ -327,9 +327,9 @@ theorem armSimC_call (clob : Nat → Nat → BitVec 64) (i : Insn) (h : i.opc = 
       | 2, _ => rw [e8]; exact hold 14 (by omega) (by omega) (by omega) (by omega) (by omega)
       | 3, _ => rw [e9]; exact hold 15 (by omega) (by omega) (by omega) (by omega) (by omega)
       | 4, _ => rw [e10]; exact hold 5 (by omega) (by omega) (by omega) (by omega) (by omega)
-  obtain ⟨hrel', htop⟩ := hexit { σ5 with rip := c.codeBase + m' } s' (md_ns_congr hns5 rfl rfl) hmem' (by rw [hs']; exact hrel.frames)
+  obtain ⟨hrel', htop, hkept⟩ := hexit { σ5 with rip := c.codeBase + m' } s' (md_ns_congr hns5 rfl rfl) hmem' (by rw [hs'])
     hregs (by rw [md_get_rip, hg5_10])
-  refine ⟨3 + 1 + 1, _, hsteps, hrel', ?_, htop, ?_, by rw [hmem'], Or.inl ⟨by rw [hs']; exact hpc, rfl⟩⟩
+  refine ⟨3 + 1 + 1, _, hsteps, hrel', ?_, htop, ?_, by rw [hmem'], by rw [hs'], hkept, Or.inl ⟨by rw [hs']; exact hpc, rfl⟩⟩
   · -- the logs
     show List.map (·.2) σ5.log = List.map (·.2) s'.log
     rw [hlog5.1, hlog4, hlog3.1, hs']
